@@ -434,13 +434,15 @@ def evaluate(case, native):
                 idx = a['index']
                 if idx <= last and last >= 0:
                     return True, f'tasks returned out of order: leg indices {[x["index"] for x in placed]}'
-                if a['loc'] != t['loc']:
+                alts = t.get('alts') or [{'loc': t['loc'], 'dur': t['dur'], 'windows': t.get('windows', [[t['tws'], t['twe']]])}]
+                options = [(alt['loc'], val(alt['dur']), val(w[0]), val(w[1])) for alt in alts for w in alt['windows']]
+                got = (a['loc'], val(a['dur']), val(a['tws']), val(a['twe']))
+                if a['loc'] not in [alt['loc'] for alt in alts]:
                     return True, f'tasks returned in a different order than the job defines: {[x["loc"] for x in placed]}'
-                wins = [[val(w[0]), val(w[1])] for w in t.get('windows', [[t['tws'], t['twe']]])]
-                if [val(a['tws']), val(a['twe'])] not in wins:
-                    return True, f'the returned activity carries the window {[a["tws"], a["twe"]]}, which is none of the windows {wins} of its task'
-                # the activity is inserted as returned: simulate with the window it carries
-                lst.insert(idx, dict(t, tws=a['tws'], twe=a['twe']))
+                if got not in options:
+                    return True, f'the returned activity carries (location, duration, window) = {got}, which is none of the alternatives {options} of its task'
+                # the activity is inserted as returned: simulate with the data it carries
+                lst.insert(idx, dict(t, loc=a['loc'], dur=a['dur'], tws=a['tws'], twe=a['twe']))
                 last = idx
             ok, why_not = feasible(lst)
             if not ok:
@@ -449,7 +451,9 @@ def evaluate(case, native):
             return False, 'returned positions are feasible in simulation'
         if len(tasks) == 1:
             for p in range(len(jobs) + 1):
-                ok = any(feasible(jobs[:p] + [dict(tasks[0], tws=w[0], twe=w[1])] + jobs[p:])[0] for w in tasks[0].get('windows', [[tasks[0]['tws'], tasks[0]['twe']]]))
+                t0_ = tasks[0]
+                alts0 = t0_.get('alts') or [{'loc': t0_['loc'], 'dur': t0_['dur'], 'windows': t0_.get('windows', [[t0_['tws'], t0_['twe']]])}]
+                ok = any(feasible(jobs[:p] + [dict(t0_, loc=alt['loc'], dur=alt['dur'], tws=w[0], twe=w[1])] + jobs[p:])[0] for alt in alts0 for w in alt['windows'])
                 if ok:
                     return True, f'evaluator returned Failure although inserting the job at leg {p} is feasible in simulation'
         return False, 'failure is consistent with the simulation (multi-task failure may be incomplete by design)'
